@@ -1,0 +1,46 @@
+//go:build verif
+
+package dxil
+
+import (
+	"fmt"
+
+	"github.com/gogpu/naga/dxil/internal/passes/dce"
+	"github.com/gogpu/naga/dxil/internal/passes/mem2reg"
+	"github.com/gogpu/naga/dxil/internal/passes/sroa"
+	"github.com/gogpu/naga/ir"
+)
+
+// VerifPrepareModule exposes prepareModule (clone + helper inlining), the
+// first step of the pre-emission pipeline of Compile.
+func VerifPrepareModule(m *ir.Module) (*ir.Module, error) { return prepareModule(m) }
+
+// VerifRunOptPasses exposes runOptPasses (sroa -> mem2reg -> dce), in place.
+func VerifRunOptPasses(m *ir.Module) error { return runOptPasses(m) }
+
+// VerifRunPass runs one of "sroa", "mem2reg", "dce" over every entry point
+// and function of m, in place, in the order runOptPasses uses.
+func VerifRunPass(m *ir.Module, pass string) error {
+	fns := make([]*ir.Function, 0, len(m.EntryPoints)+len(m.Functions))
+	for i := range m.EntryPoints {
+		fns = append(fns, &m.EntryPoints[i].Function)
+	}
+	for i := range m.Functions {
+		fns = append(fns, &m.Functions[i])
+	}
+	for _, fn := range fns {
+		switch pass {
+		case "sroa":
+			sroa.Run(m, fn)
+		case "mem2reg":
+			if err := mem2reg.Run(m, fn); err != nil {
+				return fmt.Errorf("dxil: mem2reg: %w", err)
+			}
+		case "dce":
+			dce.Run(m, fn)
+		default:
+			return fmt.Errorf("unknown pass %q", pass)
+		}
+	}
+	return nil
+}
